@@ -32,6 +32,18 @@ DROP_OK = {
     ("read_struct_field", "p"):
         "system-wide structs (sv) are read through the monitor's view of the "
         "chip: the field does not depend on which core asks",
+    # (callee, parameter, calling function): the per-core records of a chip
+    # (VCPU blocks, IOBUF chains) live in memory every core of the chip
+    # sees at the same address; they are read and written through the
+    # monitor core, p only selects *which* record
+    ("read", "p", "read_vcpu_struct_field"):
+        "the VCPU block of core p is read through the monitor (core 0)",
+    ("write", "p", "write_vcpu_struct_field"):
+        "the VCPU block of core p is written through the monitor (core 0)",
+    ("read", "p", "get_processor_status"):
+        "the VCPU block of core p is read through the monitor (core 0)",
+    ("read", "p", "get_iobuf_bytes"):
+        "the IOBUF chain of core p is read through the monitor (core 0)",
     ("scpcall", "data"):
         "read requests carry no payload; the caller's data is the buffer "
         "being filled, not data to send",
@@ -90,6 +102,15 @@ def _resolve(program, m, c):
             return None
         if nm in m.imports:
             return None         # imported from outside the package
+    if isinstance(recv, ast.Name) and recv.id in ("self", "cls"):
+        # a method of the same class (the class's own definition first)
+        k = getattr(c, "_parent", None)
+        while k is not None and not isinstance(k, ast.ClassDef):
+            k = getattr(k, "_parent", None)
+        if k is not None and getattr(k, "_qualname", None):
+            d = m.defs.get("%s.%s" % (k._qualname, nm))
+            if isinstance(d, ast.FunctionDef):
+                return d
     if recv is not None:
         root = chain(recv)
         if root is not None:
@@ -156,7 +177,8 @@ def check(program, modules):
                 for n_ in names:
                     if n_ in dfl and n_ in cps and n_ not in b and \
                             n_ not in ("self", "cls") and \
-                            (call_name(c)[0], n_) not in DROP_OK:
+                            (call_name(c)[0], n_) not in DROP_OK and \
+                            (call_name(c)[0], n_, caller.name) not in DROP_OK:
                         found = True
                         out.append(("drop", mname, c, fn, n_,
                                     "%s has the parameter %s and calls %s, "
@@ -170,8 +192,12 @@ def check(program, modules):
     return out
 
 
-def rule(program, rep, rule_id, modules, floor=1):
-    """Report the SWAP / DROP findings of ``modules`` under ``rule_id``."""
+def rule(program, rep, rule_id, modules, floor=1, domains=None):
+    """Report the SWAP / DROP findings of ``modules`` under ``rule_id``,
+    and the defaults chosen by a truth test that replace a caller's falsy
+    value (FALSY, see falsy.py)."""
+    from . import falsy
+    falsy.rule(program, rep, rule_id, modules, domains)
     res = check(program, modules)
     for m in modules:
         if m in program.modules:
